@@ -100,17 +100,21 @@ def show_type(T):
 
 
 def finding_key(c, w):
-    """canonical signature of one failed conjunct: conjunct + the class of the position it is about"""
+    """canonical signature of one failed conjunct: the conjunct + the class of the position it is about
+    (w = [alias/]<node kind>:<found>[@item|@item-field], see Cls in Render.tla)"""
+    base = w.split("@")[0]
     if c == "TypeSafe" and w == "Int:f":
         return "int-accepts-fraction"
     if c == "TypeSafe" and w == "Int:g":
         return "int-accepts-out-of-range"
     if c == "Reported" and w.startswith("alias/"):
         return "error-path-uses-upstream-alias"
-    if c == "Reported" and w.startswith("Object:") and w not in ("Object:null", "Object:typename"):
+    if c == "Reported" and base.startswith("Object:") and base not in ("Object:null", "Object:typename"):
         return "error-path-doubled:object-for-non-object-value"
-    if c == "Reported" and w.startswith("Array:") and w != "Array:null":
+    if c == "Reported" and base.startswith("Array:") and base != "Array:null":
         return "error-path-doubled:list-for-non-list-value"
+    if c == "Reported" and w == "Enum:inaccessible@item-field":
+        return "error-path-inaccessible-enum-field-of-list-item"
     return "%s:%s" % (c, w)
 
 
